@@ -2,12 +2,12 @@
 """tools/mk_mutprompt.py Cxx n : write /var/tmp/mutprompts/Cxx.txt (prompt of an independent seeding sub-agent: property text only)
 and create its scratch worktree /tmp/mut-Cxx."""
 import json, sys, os, subprocess
-pid, n = sys.argv[1], int(sys.argv[2])
+pid, n = sys.argv[1], int(sys.argv[2]); tag = sys.argv[3] if len(sys.argv) > 3 else ""
 props = {json.loads(l)["id"]: json.loads(l) for l in open('/verif/properties.jsonl')}
 T = open('/verif/tools/mutprompt.tmpl').read()
-p = props[pid]; wt = f"/tmp/mut-{pid}"
+p = props[pid]; wt = f"/tmp/mut-{pid}{tag}"
 os.makedirs("/var/tmp/mutprompts", exist_ok=True)
-open(f"/var/tmp/mutprompts/{pid}.txt", "w").write(T.format(wt=wt, pid=pid, title=p["title"], statement=p["statement"],
+open(f"/var/tmp/mutprompts/{pid}{tag}.txt", "w").write(T.format(wt=wt, pid=pid, title=p["title"], statement=p["statement"],
      quant=p["quantifier"]["text"], anchors=json.dumps(p["anchors"].get("mechanism")), n=n))
 subprocess.run(["git", "-C", "/repo", "worktree", "add", "-q", "--detach", wt, "HEAD"], check=True)
 print(wt)
